@@ -536,6 +536,9 @@ func (p *Pair) Renominate() (int, int, Addr, bool) {
 				}
 			}
 		}
+		// once a renomination is under way the selective loss ends, whichever pair was chosen: the monitors judge
+		// runs in which every check is eventually delivered within the retry budget
+		p.VictimLeft = 0
 		lh, ok := s.localH[pr.Local.ID()]
 		if !ok {
 			return 0, 0, Addr{}, false
